@@ -116,21 +116,52 @@ def o_C02(ctx):
         lm = first(t, "x_lenm")
         if lm is not None and int(lm) != k:
             v.append(([c.id], "%s: len() = %s but consumed = %d" % (c.entry, lm, k)))
-    # parsing never depends on bytes beyond k: extension members give the same object
+    # parsing never depends on bytes beyond k: every member of a group (the base input, its prefixes, its extensions)
+    # that shares the k consumed bytes of a successful member gives the same object - whichever member succeeded
+    def sig_of(tt):
+        return [(a, b) for a, b in tt if not a.startswith("x_") and a != "rem"]
     for g, mem in ctx.groups("struct").items():
-        full = mem.get("full")
-        if full is None:
+        ref = None
+        for name in ["full"] + sorted(n for n in mem if n.startswith("x")):
+            if name in mem:
+                c, t = mem[name]
+                if c.brk < 0 and res_of(t) == ("ok",) and first(t, "x_accpanic") != "1":
+                    ref = (c, t)
+                    break
+        if ref is None:
             continue
-        c, t = full
-        if res_of(t) != ("ok",) or first(t, "x_accpanic") == "1":
-            continue
-        k = first(t, "consumed")
-        sig = [(a, b) for a, b in t if not a.startswith("x_") and a != "rem"]
+        c, t = ref
+        k = int(first(t, "consumed"))
+        sig = sig_of(t)
         for name, (c2, t2) in mem.items():
-            if name.startswith("x") or (name.startswith("p") and int(name[1:]) >= int(k)):
-                sig2 = [(a, b) for a, b in t2 if not a.startswith("x_") and a != "rem"]
-                if sig2 != sig:
-                    v.append(([c.id, c2.id], "%s: result depends on bytes beyond the consumed %s bytes" % (c.entry, k)))
+            if c2 is c or c2.brk >= 0 or not (name == "full" or name.startswith("x") or name.startswith("p")):
+                continue
+            if len(c2.inp) >= k and c2.inp[:k] == c.inp[:k] and c2.param == c.param:
+                if first(t2, "x_accpanic") == "1":
+                    continue
+                if sig_of(t2) != sig:
+                    v.append(([c.id, c2.id], "%s: result depends on bytes beyond the consumed %d bytes (%d-byte and %d-byte inputs sharing them are answered differently)" % (c.entry, k, len(c.inp), len(c2.inp))))
+    # the same over the exhaustive small strings: when b is accepted consuming k < len(b), b[..k] is in the stream too
+    idx = {}
+    for c in ctx.cases.get("small", []):
+        if c.kind == "P" and c.brk < 0:
+            idx[(c.entry, c.param, c.inp)] = c
+    rs = ctx.rust.get("small", {})
+    for key, c in idx.items():
+        t = rs.get(c.id)
+        if t is None or res_of(t) != ("ok",) or first(t, "x_accpanic") == "1":
+            continue
+        k = int(first(t, "consumed"))
+        if k >= len(c.inp):
+            continue
+        c2 = idx.get((c.entry, c.param, c.inp[:k]))
+        if c2 is None:
+            continue
+        t2 = rs.get(c2.id)
+        if t2 is None or first(t2, "x_accpanic") == "1":
+            continue
+        if sig_of(t2) != sig_of(t):
+            v.append(([c.id, c2.id], "%s: result depends on bytes beyond the consumed %d bytes (the input cut to exactly those bytes is answered differently)" % (c.entry, k)))
     return v
 
 
@@ -314,7 +345,10 @@ def rel_pair(short, long_, v, what):
     r1, r2 = res_of(t1), res_of(t2)
     if "panic" in (r1[0], r2[0]) or "missing" in (r1[0], r2[0]):
         return
-    e1, e2 = evs_of(t1), evs_of(t2)
+    # every callback counts here, zero-count input announcements included: C07 relates two runs of the same
+    # implementation (C04's "aside" is about what the traversal must contain, not about consistency between runs)
+    e1 = [canon_ev(x) for k, x in t1 if k == "ev"]
+    e2 = [canon_ev(x) for k, x in t2 if k == "ev"]
     if e2[:len(e1)] != e1:
         v.append(([c1.id, c2.id], "%s: callbacks on the prefix (%d bytes) are not a prefix of the callbacks on the longer input (%d bytes)" % (c1.entry, len(c1.inp), len(c2.inp))))
     if r1 == ("ok",):
